@@ -15,8 +15,11 @@
 
    go/types is not verified: a type is the small AST [ty]; [TNamed pkg name] is a *types.Named or
    *types.Alias whose object lives in package [pkg] ([] = universe scope: error, any, comparable);
-   the last parameter of a variadic method has type [TSlice elem] as in go/types.  Type
-   parameters and instantiated generic types are outside the model. *)
+   the last parameter of a variadic method has type [TSlice elem] as in go/types.  A type
+   parameter of a generic interface is [TParam name]: it has an object and a name like a named
+   type, but it is neither *types.Named nor *types.Alias, so methodData computes no key for it
+   - also when a package-level type of the same name is a replace-type key.  Instantiated
+   generic types are outside the model. *)
 From Mk Require Import Lib.Bytes Lib.Dec Cfg.Config Gen.Alloc.
 
 Inductive chandir := CBoth | CSend | CRecv.
@@ -24,6 +27,7 @@ Inductive chandir := CBoth | CSend | CRecv.
 Inductive ty :=
 | TBasic (name : str)
 | TNamed (pkg name : str)
+| TParam (name : str)                     (* a type parameter of the interface: *types.TypeParam *)
 | TPtr (t : ty)
 | TSlice (t : ty)
 | TArray (n : nat) (t : ty)
@@ -42,6 +46,7 @@ Record iface := { i_name : str; i_rt : rtmap; i_methods : list method }.
 Fixpoint imports_of (t : ty) : list str :=
   match t with
   | TBasic _ => []
+  | TParam _ => []
   | TNamed pkg _ => match pkg with [] => [] | _ => [pkg] end
   | TPtr e | TSlice e | TArray _ e | TChan _ e => imports_of e
   | TMap k v => imports_of k ++ imports_of v
@@ -114,6 +119,7 @@ Section Render.
   Fixpoint render (t : ty) : str :=
     match t with
     | TBasic n => n
+    | TParam n => n
     | TNamed pkg n => match pkg with
                       | [] => n
                       | _ => match q pkg with [] => n | ql => ql ++ B "." ++ n end
